@@ -63,6 +63,64 @@ func r12e(c *core.Ctx) {
 		have = core.Expr(sl.High)
 	}
 	c.Check(okCut, "cut-at-last", cut.Pos(), fn, "the section is shortened by exactly one record (m.Additionals[:len-1]): nothing after the OPT is dropped", have)
+	// the scan visits every record: the type test sits in a loop whose only exits are the exhausted index (at the
+	// loop header) and the edge on which the tested record IS the OPT
+	var hdrCall ssa.CallInstruction
+	for _, call := range core.Calls(fn) {
+		if call.Common().IsInvoke() && call.Common().Method.Name() == "Hdr" {
+			hdrCall = call
+		}
+	}
+	if hdrCall != nil {
+		var loop *natLoop
+		for _, l := range naturalLoops(fn) {
+			if l.body[hdrCall.Block()] {
+				loop = l
+			}
+		}
+		c.Check(loop != nil, "scan-is-a-loop", hdrCall.Pos(), fn, "the record type test is repeated for every index (it sits in a loop that continues after a non-OPT record)", "")
+		if loop != nil {
+			derivesFromHdr := func(v ssa.Value) bool {
+				for d := 0; d < 6 && v != nil; d++ {
+					switch x := v.(type) {
+					case *ssa.UnOp:
+						v = x.X
+					case *ssa.FieldAddr:
+						v = x.X
+					case *ssa.Field:
+						v = x.X
+					case *ssa.Convert:
+						v = x.X
+					case *ssa.Call:
+						return ssa.Instruction(x) == hdrCall.(ssa.Instruction)
+					default:
+						return false
+					}
+				}
+				return false
+			}
+			nExit := 0
+			for _, b := range fn.Blocks {
+				if !loop.body[b] {
+					continue
+				}
+				for k, sc := range b.Succs {
+					if loop.body[sc] || b == loop.head {
+						continue
+					}
+					okExit := false
+					if iff, isIf := b.Instrs[len(b.Instrs)-1].(*ssa.If); isIf {
+						if cm, isCmp := core.CmpOf(iff.Cond); isCmp && cm.Op == "==" && (derivesFromHdr(cm.XV) || derivesFromHdr(cm.YV)) {
+							// edge k==0 is the true edge; the comparison holds there iff !Neg
+							okExit = (k == 0) != cm.Neg
+						}
+					}
+					nExit++
+					c.Check(okExit, fmt.Sprintf("scan-exit#%d", nExit), b.Instrs[len(b.Instrs)-1].Pos(), fn, "the scan leaves the loop early only on the edge where the tested record is the OPT (a non-OPT record never ends the scan)", "")
+				}
+			}
+		}
+	}
 	// the scanned index runs over the whole section and the returned record is the one found
 	for _, ret := range returnsOf(fn) {
 		if core.IsNilConst(ret.Results[0]) {
